@@ -2,6 +2,7 @@
 //! in the line protocol of DESIGN Appendix B. `pm-harness <stage> [--thorough]`, seed from
 //! the environment variable VERIF_SEED (default 1).
 mod con;
+mod cross;
 mod e2e;
 mod idx;
 mod maps;
@@ -33,6 +34,10 @@ fn main() {
         "e2e.mat" => e2e::run_matrices(seed, thorough, if thorough { 15000 } else { 900 }),
         "e2e.pg" => pg::run_e2e(seed, thorough, if thorough { 12000 } else { 700 }),
         "pg.stages" => pg::run_stages(seed, thorough),
+        "cross.heur" => cross::run_heur(seed, thorough),
+        "cross.sets" => cross::run_sets(seed, thorough),
+        "cross.ext" => cross::run_ext(seed, thorough),
+        "cross.repro" => cross::run_repro(seed, thorough, args.iter().any(|a| a == "--warmup")),
         "e2e.table" => e2e::run_table(seed, thorough, if thorough { 20000 } else { 1200 }),
         _ => {
             eprintln!("unknown stage {stage}");
